@@ -352,6 +352,19 @@ Section ModesProofs.
     - rewrite (fp_err _ _ _ He). simpl. split; [contradiction|]. intros (_ & _ & H & _). destruct He as [_ He]. exfalso; eapply He; eauto.
   Qed.
 
+  (* -w, whatever other mode flags are given (-l, -d): exactly the differing files are rewritten, with their
+     formatted bytes *)
+  Lemma write_iff_differs : forall fl flagl fs p r, f_write fl = true -> (forall f, In f fs -> fi_isreg f = true) ->
+    (In (EvWrite p r) (fst (run_files fl flagl fs)) <->
+     exists f, In f fs /\ fi_path f = p /\ skipped f = false /\
+               fmt (file_lang flagl f) (fi_src f) = Ok r /\ r <> fi_src f).
+  Proof.
+    intros fl flagl fs p r Hw Hreg. rewrite run_files_in. split.
+    - intros (f & Hin & [H|[H _]]); [|discriminate].
+      apply fp_write_ev in H; auto. destruct H as (-> & Hs & Hr & Hne). exists f. auto.
+    - intros (f & Hin & <- & Hs & Hr & Hne). exists f. split; auto. left. apply fp_write_ev; auto.
+  Qed.
+
   Lemma nodup_map_inj : forall {A B} (g : A -> B) (l : list A) a b,
     NoDup (map g l) -> In a l -> In b l -> g a = g b -> a = b.
   Proof.
